@@ -60,6 +60,54 @@ HANDSHAKE_HEX_POOL = [
     '0b000003' + '000000',                                                        # Certificate, empty certificate_list
 ]
 
+# extensions at the lower bound of their grammar (an empty body, an empty or one-item list); the library's own
+# constructors may refuse to build some of them, a peer may send every one
+MINIMAL_EXTENSIONS = {
+    'server': ['33740000', 'ff01000100', '00230000', '00050000', '00000000', '00170000', '00160000', '000b00020100',
+               '00100005000302' + '6832', '002b00020304'],
+    'client': ['33740000', 'ff01000100', '00230000', '00120000', '00150000', '00170000', '00160000',
+               '000500050100000000', '000b00020100', '000a00040002001d', '000d00040002' + '0403', '002d00020101',
+               '002b0003020304', '001c00024000', '0015000400000000'],
+}
+
+
+def _hello(message_type, extensions):
+    body = '0303' + RANDOM32 + '00' + ('c02f' + '00' if message_type == '02' else '0002c02f' + '0100')
+    if extensions is not None:
+        joined = ''.join(extensions)
+        body += '%04x' % (len(joined) // 2) + joined
+    return message_type + '%06x' % (len(body) // 2) + body
+
+
+def _minimal_extension_hellos():
+    out = []
+    for side, message_type in (('server', '02'), ('client', '01')):
+        out.append(_hello(message_type, None))
+        out.append(_hello(message_type, []))
+        out.extend(_hello(message_type, [extension]) for extension in MINIMAL_EXTENSIONS[side])
+        out.append(_hello(message_type, MINIMAL_EXTENSIONS[side]))
+    return out
+
+
+REFERENCE_POOL = []
+
+
+def reference_pool():
+    """Reference-encoded handshake messages (vf/gen/refseeds.py: the encoders of C06's model, independent of compose())
+    and hellos carrying extensions at their lower bound.  They are 'lenient' entries: a message the parser refuses with
+    a documented error other than NotEnoughData is not a case here (acceptance is C06's subject); one that is answered
+    with NotEnoughData although it is complete is."""
+    if not REFERENCE_POOL:
+        from vf.gen import refseeds  # pylint: disable=import-outside-toplevel
+        texts = list(_minimal_extension_hellos())
+        for ref in HANDSHAKE_REFS:
+            for wire in refseeds.for_class(lib.resolve(ref)):
+                if len(wire) >= 4 and int.from_bytes(wire[1:4], 'big') + 4 == len(wire) and len(wire) <= 4096:
+                    texts.append(wire.hex())
+        REFERENCE_POOL.extend(sorted(set(texts)))
+    return REFERENCE_POOL
+
+
 REC = 'cryptoparser.tls.record:'
 SUB = 'cryptoparser.tls.subprotocol:'
 HANDSHAKE_REFS = [SUB + name for name in (
@@ -117,6 +165,10 @@ def realize(layer, entry):
     """-> (wire, original object or None, locus).  Raises NotACase when the constructor / composer refuses."""
     if 'hex' in entry:
         wire = bytes.fromhex(entry['hex'])
+        if entry.get('lenient'):
+            whole = lib.call(_class_of(layer).parse_exact_size, wire)
+            if not whole.ok and not isinstance(whole.exc, lib.errors().NotEnoughData):
+                raise NotACase('reference message refused: ' + type(whole.exc).__name__)
         return wire, None, entry.get('cls', layer)
     built = lib.call(specs.build, entry['spec'])
     if not built.ok:
@@ -176,6 +228,11 @@ def judge_prefixes(layer, entry):
     whole = lib.call(cls.parse_mutable, bytearray(wire))
     banner = layer == 'SshProtocolMessage'
     if not whole.ok:
+        if banner and isinstance(whole.exc, errors.NotEnoughData):
+            # the identification string ends with its line end: a reader told to wait for more waits for a peer that
+            # is itself waiting for our banner
+            add('complete-rejected:NotEnoughData/' + locus, {
+                'length': len(wire), 'error': repr(whole.exc)[:160], 'record': wire.hex()[:120]})
         if not banner:
             add('complete-rejected:%s/%s' % (type(whole.exc).__name__, locus), {
                 'length': len(wire), 'error': repr(whole.exc)[:160], 'record': wire.hex()[:120]})
@@ -458,12 +515,17 @@ def _entry_strategy(layer):
         return st.one_of(plain, padded)
     if layer == 'TlsHandshakeMessageVariant':
         pool_entries = st.sampled_from(HANDSHAKE_HEX_POOL).map(lambda text: {'hex': text, 'cls': _hex_locus(text)})
-        return st.one_of(*(sources + sources + [pool_entries]))
+        reference_entries = st.sampled_from(reference_pool()).map(
+            lambda text: {'hex': text, 'cls': _hex_locus(text), 'lenient': True})
+        return st.one_of(*(sources + sources + [pool_entries, reference_entries]))
     return st.one_of(*sources)
 
 
 def _hex_locus(text):
-    return {'01': 'TlsHandshakeClientHello', '0b': 'TlsHandshakeCertificate'}.get(text[:2], 'TlsHandshakeMessageVariant')
+    return {'01': 'TlsHandshakeClientHello', '02': 'TlsHandshakeServerHello', '0b': 'TlsHandshakeCertificate',
+            '0c': 'TlsHandshakeServerKeyExchange', '0d': 'TlsHandshakeCertificateRequest',
+            '16': 'TlsHandshakeCertificateStatus', '0e': 'TlsHandshakeServerHelloDone'}.get(
+                text[:2], 'TlsHandshakeMessageVariant')
 
 
 def _usable(layer, entry, ceiling):
